@@ -20,6 +20,8 @@ type Case struct {
 	Fault bool
 	// RunVars are passed to Template.Run.
 	RunVars map[string]any
+	// Extra are further template files (imported or extended).
+	Extra map[string]string
 }
 
 func prog(body string, decls ...string) string {
